@@ -603,7 +603,8 @@ where
                         cfg,
                         &mut recorder,
                     ))
-                });
+                })
+                .and_then(|v| src.ensure_root_node_consumed().map(|()| v));
                 let value = match value_res {
                     Ok(v) => v,
                     Err(e) => return Err(maybe_with_snippet(e, input, with_snippet, crop_radius)),
@@ -836,7 +837,8 @@ where
                                 self.cfg,
                                 &mut recorder,
                             ))
-                        });
+                        })
+                        .and_then(|v| self.src.ensure_root_node_consumed().map(|()| v));
                         let value = match value_res {
                             Ok(v) => v,
                             Err(e) => {
@@ -987,7 +989,8 @@ where
                         cfg,
                         &mut recorder,
                     ))
-                });
+                })
+                .and_then(|v| src.ensure_root_node_consumed().map(|()| v));
                 let value = match value_res {
                     Ok(v) => v,
                     Err(e) => return Err(maybe_with_snippet(e, input, with_snippet, crop_radius)),
@@ -1210,7 +1213,8 @@ where
                                 self.cfg,
                                 &mut recorder,
                             ))
-                        });
+                        })
+                        .and_then(|v| self.src.ensure_root_node_consumed().map(|()| v));
                         let value = match value_res {
                             Ok(v) => v,
                             Err(e) => {
@@ -1391,7 +1395,8 @@ pub fn from_multiple_with_options<T: DeserializeOwned>(
             Some(_) => {
                 let value_res = crate::anchor_store::with_document_scope(|| {
                     T::deserialize(crate::de::YamlDeserializer::new(&mut src, cfg))
-                });
+                })
+                .and_then(|v| src.ensure_root_node_consumed().map(|()| v));
                 let value = match value_res {
                     Ok(v) => v,
                     Err(e) => return Err(maybe_with_snippet(e, input, with_snippet, crop_radius)),
@@ -1936,7 +1941,8 @@ where
                                 &mut self.src,
                                 self.cfg,
                             ))
-                        });
+                        })
+                        .and_then(|v| self.src.ensure_root_node_consumed().map(|()| v));
                         if res.is_err() {
                             // After a deserialization error, skip remaining events in the
                             // current document and try to recover at the next document boundary.
